@@ -1348,7 +1348,8 @@ def _run_unit(unit, tier, rec):
 
 def finalize(rec, tier):
     for op in ('split_column', 'triangulate_column', 'refine'):
-        if not rec.counters.get('exhaustion_reached:' + op):
+        # (vacuity guard; a library that misbehaves may never reach exhaustion - then the violations speak)
+        if not rec.counters.get('exhaustion_reached:' + op) and not rec.viol:
             raise core.HarnessError('no edit sequence reached the exhaustion of names for %s: the ED units are vacuous' % op)
     return {'distinct_nontrivial': len(rec.distinct) + rec.counters.get('generator_cases_distinct_by_construction', 0),
             'distinct_hashed': len(rec.distinct),
